@@ -2,6 +2,7 @@
 //! (built from /repo's working tree with the `verif` feature) and reports
 //! canonical observations as JSON lines.
 mod common;
+mod http_client;
 mod sched_mode;
 mod store_mode;
 mod wire_mode;
